@@ -1,6 +1,7 @@
 #!/bin/bash
 # tools/seedtest.sh <prop> <patch> : apply a seeded change to /repo, run the quick check, undo it.
 P=$1; PATCH=$2
+if [ -n "$(git -C /repo status --porcelain)" ]; then echo "refusing: /repo has uncommitted changes"; exit 4; fi
 cd /repo && git apply "$PATCH" || { echo "PATCH DOES NOT APPLY"; exit 3; }
 git diff --stat | tail -1
 cd /verif && ./bin/govc check -prop $P -no-evidence 2>&1 | grep -E "^FAILED|^govc:|KNOWN|^VIOLATION" | cut -c1-260
